@@ -84,16 +84,27 @@ Definition start_line_end (k : kind) (buf : list N) : option (nat * list N) :=
 
 (* the offset the head must end at, given where the first stored header name starts
    (None: no header stored) and whether leading SP/HTAB is disregarded *)
-Definition expected_end (spb : bool) (first_name : option nat) (off : nat) (l : list N) : option nat :=
+Fixpoint accept_chain (fold : bool) (cands : list (bool * bool * nat)) : list nat :=
+  match cands with
+  | [] => []
+  | (strict, hasprev, e) :: r => e :: (if fold && negb strict && hasprev then accept_chain fold r else [])
+  end.
+(* the offsets the head may end at.  Candidates are the strictly empty lines and, when leading SP/HTAB is
+   disregarded (spb, before the first stored header), the whitespace-only ones.  The head ends at the FIRST
+   candidate -- except that with obsolete line folding a whitespace-only line that follows another line may be
+   the continuation of a header being folded (which `ignore_invalid_headers` may later drop, so that no stored
+   header shows it): then the next candidate is acceptable too.  A strictly empty line always ends the head. *)
+Definition expected_ends (spb fold : bool) (first_name : option nat) (off : nat) (l : list N) : list nat :=
   let ls := lines_from off off [] l in
   let before_first (s : nat) := match first_name with None => true | Some f => Nat.ltb s f end in
   let term := fun (x : nat * nat * list N) =>
     match x with (s, e, ln) =>
       strictly_empty ln || (spb && before_first s && ws_empty ln) end in
-  match filter term ls with
-  | (_, e, _) :: _ => Some e
-  | [] => None
-  end.
+  accept_chain fold (map (fun x : nat * nat * list N =>
+                            match x with (s, e, ln) => (strictly_empty ln, negb (Nat.eqb s off), e) end)
+                         (filter term ls)).
+Definition expected_end (spb : bool) (first_name : option nat) (off : nat) (l : list N) : option nat :=
+  hd_error (expected_ends spb false first_name off l).
 
 Definition first_name_off (ex : list slot) : option nat :=
   match ex with
@@ -110,10 +121,7 @@ Definition check_C03 (k : kind) (spb fold : bool) (buf : list N) (o : aobs) : bo
       Nat.leb n (length buf) &&
       match start_line_end k buf with
       | Some (so, l) =>
-          match expected_end spb (first_name_off (a_exposed o)) so l with
-          | Some e => Nat.eqb n e
-          | None => false
-          end
+          existsb (Nat.eqb n) (expected_ends spb fold (first_name_off (a_exposed o)) so l)
       | None => false
       end
   | Partial =>
